@@ -310,12 +310,23 @@ pub fn run_c33(ctx: &Ctx) -> i32 {
                     }
                     1 => {
                         // invalid buffer: first limb = p (non canonical) but the other limbs carry the secret
+                        // invalid buffer: one limb (any position) is non canonical, the others carry the secret
                         let mut buf = sbytes;
-                        buf[0..8].copy_from_slice(&P.to_le_bytes());
+                        let bad = rng.gen_range(0..4usize);
+                        let badv = *[P, P + 1, u64::MAX].get(rng.gen_range(0..3)).unwrap();
+                        buf[bad * 8..bad * 8 + 8].copy_from_slice(&badv.to_le_bytes());
                         let r = Secret::new(&mut buf);
                         if buf != [0u8; 32] || r.is_ok() {
                             caller_buffer_not_zeroed = true;
                         }
+                        // heap-resident caller buffer: freeing it afterwards is scanned by the allocator as well
+                        let mut hb: Box<[u8; 32]> = Box::new(sbytes);
+                        hb[bad * 8..bad * 8 + 8].copy_from_slice(&badv.to_le_bytes());
+                        let _ = Secret::new(&mut hb);
+                        if *hb != [0u8; 32] {
+                            caller_buffer_not_zeroed = true;
+                        }
+                        drop(hb);
                     }
                     2 => secs.push(Box::new(Secret::from(sbd))),
                     3 => secs.push(Box::new(Secret::from(secret))),
